@@ -37,7 +37,9 @@ def base_cfg(npts, iota=0.0, R0=2.0, eps=1e-2, m=2, n=1, dt=2, degrees=(3, 3, 3,
 @st.composite
 def sim_config(draw, tier, small=True):
     nr = draw(st.integers(5, 7))
-    nq = draw(st.integers(6, 8))
+    # theta may have fewer points than there are processes along r: the driver's mode_solve layout distributes the
+    # theta modes over nprocs[0], which is chosen from r, z and v only, so some ranks then own an empty block there
+    nq = draw(st.sampled_from([4, 5, 6, 7, 8, 4, 5]))
     nz = draw(st.integers(7, 9))
     nv = draw(st.integers(5, 7))
     iota = draw(st.sampled_from([0.8, 0.0, 0.8, -0.8]))
